@@ -1,7 +1,9 @@
 import EpgVerif.Props.C10
+import EpgVerif.Tie.ApplySites
 open EpgVerif.Props.C10
 #print axioms flatten_spec
 #print axioms multi_attrs_sums
 #print axioms combine_apply
 #print axioms combine_assoc
 #print axioms combine_partials_first_order
+#print axioms EpgVerif.Tie.ApplySites.sites_as_modelled
